@@ -22,7 +22,7 @@ RULE = ("one case = a trace of 1..10 points (planar dyadic / planar real at scal
 ANCHORS = [("leuvenmapmatching/util/dist_euclidean.py", "interpolate_path"),
            ("leuvenmapmatching/util/dist_latlon.py", "interpolate_path")]
 FLOORS = {"subdivided_gaps:planar": 2000, "subdivided_gaps:latlon": 2000, "exact_division_cases": 100,
-          "repeated_point_cases": 200, "triple_cases": 300, "single_point_cases": 100, "inserted_points_judged": 20000}
+          "repeated_point_cases": 200, "triple_cases": 300, "single_point_cases": 100, "inserted_points_judged": 20000, "near_multiple_cases": 800}
 ASSUMPTIONS = ["an inserted point counts as 'on the connection' within 1e-9*gap + (64+2k) ulp of the coordinates for k inserted points "
                "(the repository accumulates k rounded additions; first false alarm of this check, corrected) / 1 mm (sphere)",
                "gap bound judged as spacing*(1+1e-9) plus one ulp of the coordinates"]
@@ -59,12 +59,22 @@ def gen_case(rng, i, tier):
             exact = True
         else:
             dd = g * rng.choice([2.0, 1.0, 0.5, 0.3, 0.1, 0.01, 0.001, rng.uniform(0.002, 1.5)])
+    near = False
+    if n > 1 and rng.random() < 0.25:
+        # the spacing makes one gap a hair above / below a whole number of steps: dist/dd = k +- delta
+        j = rng.randrange(n - 1)
+        g = gaps[j] if j < len(gaps) else 0.0
+        if g > 0:
+            k = rng.choice([1, 1, 2, 3, 5, 10])
+            delta = rng.choice([1e-12, 1e-9, 1e-7, 1e-6, 1e-5, 3e-5, 1e-4, 1e-3]) * rng.choice([1, 1, -1])
+            dd = g / (k + delta)
+            near = True
     if n > 1 and rng.random() < 0.2:
         j = rng.randrange(1, n)
         pts[j] = pts[j - 1]
     if triple:
         pts = [(p[0], p[1], 1000.0 + 7 * k) for k, p in enumerate(pts)]
-    return {"metric": metric, "path": [list(p) for p in pts], "dd": dd, "exact": exact, "triple": triple}
+    return {"metric": metric, "path": [list(p) for p in pts], "dd": dd, "exact": exact, "triple": triple, "near_multiple": near}
 
 
 def check_case(ctx, case):
@@ -76,6 +86,8 @@ def check_case(ctx, case):
     m = case["metric"]
     if len(path) == 1:
         ctx.count("single_point_cases")
+    if case.get("near_multiple"):
+        ctx.count("near_multiple_cases")
     if case["triple"]:
         ctx.count("triple_cases")
     if any(a[:2] == b[:2] for a, b in zip(path, path[1:])):
